@@ -253,13 +253,14 @@ func (w *binaryWriter) WriteSymbol(val SymbolToken) error {
 	}
 
 	var id uint64
-	if val.LocalSID != SymbolIDUnknown {
-		id = uint64(val.LocalSID)
-	} else if val.Text != nil {
+	if val.Text != nil {
+		// The text decides: a token's LocalSID belongs to whatever table it was read from.
 		id, w.err = w.resolveFromSymbolTable("Writer.WriteSymbol", *val.Text)
 		if w.err != nil {
 			return w.err
 		}
+	} else if val.LocalSID != SymbolIDUnknown {
+		id = uint64(val.LocalSID)
 	} else {
 		w.err = &UsageError{"Writer.WriteSymbol", "symbol token without defined text or symbol id is invalid"}
 		return w.err
@@ -521,14 +522,14 @@ func (w *binaryWriter) beginValue(api string) error {
 		}
 
 		var id uint64
-		if name.LocalSID != SymbolIDUnknown {
-			id = uint64(name.LocalSID)
-		} else if name.Text != nil {
+		if name.Text != nil {
 			var err error
 			id, err = w.resolveFromSymbolTable(api, *name.Text)
 			if err != nil {
 				return err
 			}
+		} else if name.LocalSID != SymbolIDUnknown {
+			id = uint64(name.LocalSID)
 		} else {
 			return &UsageError{api, "field name symbol token does not have defined text or symbol id."}
 		}
